@@ -122,6 +122,15 @@ Proof. exact run_independent_of_history. Qed.
 Print Assumptions C14_run_independent_of_history.
 (* the invariant behind it: whatever a run was, the state after its end equals the initial state on every
    field the next run reads before writing (_timeLimit, _delayingPreconditionCheck, _overrides, _subScenarios, _isRunning) *)
+(* ... and so is every result of a whole session of simulations, of any length, after any history *)
+Theorem C14_session_independent_of_history : forall P h xs,
+  session fixedH P (History.after fixedH P h) xs = map (History.run_from_initial fixedH P) xs.
+Proof. exact session_independent_of_history. Qed.
+Print Assumptions C14_session_independent_of_history.
+Theorem C14_session_order_irrelevant : forall P h1 h2 xs,
+  session fixedH P (History.after fixedH P h1) xs = session fixedH P (History.after fixedH P h2) xs.
+Proof. exact session_order_irrelevant. Qed.
+Print Assumptions C14_session_order_irrelevant.
 Theorem C14_finish_restores_read_fields : forall P s x,
   History.read_eq s (History.init P) -> History.read_eq (fst (History.run_one fixedH P s x)) (History.init P).
 Proof. exact finish_restores_read_fields. Qed.
